@@ -416,5 +416,23 @@ mut("06N-nonce-hash-by-append", "C06", None, (H,
 mut("18N-srp-operand-order", "C18", None, ("telegram/internal/srp/2fa.go", "	kv := k.Mul(k, v).Mod(k, p)", "	kv := k.Mul(v, k).Mod(k, p)"))
 mut("09N-delete-before-send", "C09", None, ("network.go", "	v <- data\n\n	m.responseChannels.Delete(msgID)\n	m.expectedTypes.Delete(msgID)\n", "	m.responseChannels.Delete(msgID)\n	m.expectedTypes.Delete(msgID)\n	v <- data\n"))
 
+# --- third round: rules added after the round-3 seeds, with behaviour-preserving controls -----------------
+mut("03-parity-signed-remainder", "C03", "accept:encrypted", ("internal/mtproto/messages/messages.go", "	mod := msg.MsgID & 3\n	if mod != 1 && mod != 3 {\n		return nil, fmt.Errorf(\"wrong bits of message_id: %d\", mod)", "	mod := msg.MsgID % 4\n	if mod != 1 && mod != 3 {\n		return nil, fmt.Errorf(\"wrong bits of message_id: %d\", mod)"))
+mut("03-length-test-off-by-one", "C03", "accept:encrypted/lengths", ("internal/mtproto/messages/messages.go", "len(decrypted)-(tl.LongLen+tl.LongLen+tl.LongLen+tl.WordLen+tl.WordLen) < int(messageLen) {", "len(decrypted)-(tl.LongLen+tl.LongLen+tl.LongLen+tl.WordLen+tl.WordLen) <= int(messageLen) {"))
+mut("06-ga-length-check", "C06", "wire-number:", (H, "	// this apparently is just part of diffie hellman", "	if len(dhi.GA) != 256 {\n		return errors.New(\"handshake: Wrong g_a\")\n	}\n	// this apparently is just part of diffie hellman"))
+mut("08-abridged-max-words-in-bytes", "C08", "admit:abridged", ("internal/mode/arbiged.go", "	size *= tl.WordLen\n", "	size *= tl.WordLen\n	if size > 1<<18 {\n		return nil, fmt.Errorf(\"announced message is too long: %d bytes\", size)\n	}\n"))
+mut("09-add-under-rlock", "C09", "locks:SyncIntObjectChan.Add", ("internal/utils/sync_stuff.go", "func (s *SyncIntObjectChan) Add(key int, value chan tl.Object) {\n	s.mutex.Lock()\n	s.m[key] = value\n	s.mutex.Unlock()", "func (s *SyncIntObjectChan) Add(key int, value chan tl.Object) {\n	s.mutex.RLock()\n	s.m[key] = value\n	s.mutex.RUnlock()"))
+mut("11-delete-closes-channel", "C11", "close:", ("internal/utils/sync_stuff.go", "func (s *SyncIntObjectChan) Delete(key int) bool {\n	s.mutex.Lock()\n	_, ok := s.m[key]\n	delete(s.m, key)\n	s.mutex.Unlock()\n	return ok", "func (s *SyncIntObjectChan) Delete(key int) bool {\n	s.mutex.Lock()\n	v, ok := s.m[key]\n	delete(s.m, key)\n	s.mutex.Unlock()\n	if ok {\n		close(v)\n	}\n	return ok"))
+mut("12-hostname-only-when-empty", "C12", "LoadSession:Hostname", ("mtproto_utils.go", "	m.addr = s.Hostname\n", "	if m.addr == \"\" {\n		m.addr = s.Hostname\n	}\n"))
+mut("14-islist-ignored", "C14", "reads:generateMethodFunction", ("internal/cmd/tlgen/gen/tl_gen_methods.go", "	resp := g.typeIdFromSchemaType(obj.Response.Type)\n	if obj.Response.IsList {", "	resp := g.typeIdFromSchemaType(obj.Response.Type)\n	if false {"))
+mut("17-handled-migrate-returns-error", "C17", "handled-means-nil", ("mtproto.go", "		m.addr = newIP\n		err := m.Reconnect()\n		return err\n", "		m.addr = newIP\n		if err := m.Reconnect(); err != nil {\n			return err\n		}\n		return e\n"))
+mut("18-wrapper-trims-password", "C18", "srp-wrapper:password", ("telegram/srp.go", "	res, err := srp.GetInputCheckPassword(password, accountPassword.SRPB, mp)", "	res, err := srp.GetInputCheckPassword(strings.TrimSpace(password), accountPassword.SRPB, mp)"), ("telegram/srp.go", "import (\n", "import (\n	\"strings\"\n"))
+mut("20-trimleft-before-split", "C20", "segments-verbatim", ("telegram/deeplinks/template.go", "	pathItems := strings.Split(path, \"/\")", "	pathItems := strings.Split(strings.TrimLeft(path, \"/\"), \"/\")"))
+mut("04-validation-out-of-cipher-methods", "C04", "doAES256IGEdecrypt", ("internal/aes_ige/ige_cipher.go", "func (c *Cipher) doAES256IGEdecrypt(in, out []byte) error { //nolint:dupl потому что алгоритм на тоненького\n	if err := isCorrectData(in); err != nil {\n		return err\n	}\n", "func (c *Cipher) doAES256IGEdecrypt(in, out []byte) error { //nolint:dupl потому что алгоритм на тоненького\n"))
+mut("03N-parity-unsigned-remainder", "C03", None, ("internal/mtproto/messages/messages.go", "	mod := msg.MsgID & 3\n	if mod != 1 && mod != 3 {\n		return nil, fmt.Errorf(\"wrong bits of message_id: %d\", mod)", "	mod := uint64(msg.MsgID) % 4\n	if mod != 1 && mod != 3 {\n		return nil, fmt.Errorf(\"wrong bits of message_id: %d\", mod)"))
+mut("20N-trimprefix-before-split", "C20", None, ("telegram/deeplinks/template.go", "	tplPathItems := strings.Split(tpl, \"/\")\n	pathItems := strings.Split(path, \"/\")", "	tplPathItems := strings.Split(strings.TrimPrefix(tpl, \"/\"), \"/\")\n	pathItems := strings.Split(strings.TrimPrefix(path, \"/\"), \"/\")"))
+mut("09N-blocking-select-send", "C09", None, ("network.go", "	v <- data\n", "	select {\n	case v <- data:\n	}\n"))
+mut("04N-refusal-wraps-tested-error", "C04", None, ("internal/mtproto/messages/messages.go", "	if err != nil {\n		return nil, errors.Wrap(err, \"decrypting message\")\n	}", "	if err != nil {\n		return nil, fmt.Errorf(\"decrypting message: %w\", err)\n	}"))
+
 json.dump(M, open('/verif/selftest/mutations.json', 'w'), indent=1, ensure_ascii=False)
 print(len(M), "mutations")
